@@ -15,7 +15,7 @@ RULE = ("every interleaving (loom: DPOR, unbounded or preemption-bounded as list
         "acquire/release, and the dispatcher/worker throttling protocol of rehash(). A state is one complete "
         "execution; transitions are semaphore operations executed. Invariants: holders <= permits, no deadlock, "
         "permit count restored. Call-site conformance (binds the protocol model to group.rs): the real `group` runs "
-        "with RLIMIT_NOFILE reported as 100 (70, 150 in thorough) by the interposer while the real limit stays large, pools of 200-300 threads, 300 small / 120 three-stage "
+        "with RLIMIT_NOFILE reported as 100 (70, 150 in thorough) by the interposer while the real limit stays large, pools of 200-300 threads, pinned disk kind ssd / hdd / unknown (the latter two run the extents stage, whose FIEMAP calls all fail on tmpfs), 300 small / 120 three-stage "
         "files, every read delayed by 20 ms (the schedule that maximises overlap); a monitor counts descriptors open "
         "on scanned files: never more than the reported limit, the run ends, every duplicate pair is reported. These "
         "runs are single executions (not exhaustive); they are counted as one state each.")
@@ -78,6 +78,11 @@ def cases(tier, seed):
                 if tr and (tree == "big120" or threads[1] != "300"):
                     continue
                 q.append({"engine": "e2e", "tree": tree, "threads": threads, "extra": tr, "nofile": 100})
+    # the same under the HDD / unknown pin: the "fetching extents" stage runs (and fails for every file on tmpfs, which
+    # has no FIEMAP), and the hashing pools differ
+    for disk in ("hdd", "unknown"):
+        q.append({"engine": "e2e", "tree": "small300", "threads": ["-t", "300"], "extra": [], "nofile": 100, "disk": disk})
+        q.append({"engine": "e2e", "tree": "big120", "threads": ["-t", "default:200,200"], "extra": [], "nofile": 100, "disk": disk})
     if tier == "quick":
         return q
     th = list(q)
@@ -112,7 +117,7 @@ def evaluate_e2e(case):
             tree.append({"p": "r/d%d/f%03d" % (i % 7, i), "k": "file", "c": ["base", size, i // 2 + 1]})
         C.make_tree(sc.tree, tree)
         args = ["group", "--min", "0", "-f", "json"] + case["threads"] + case["extra"] + ["r"]
-        env = {"FCSHIM_FAKE_NOFILE": str(case["nofile"]), "FCSHIM_READ_DELAY_US": "20000", "FCLONES_VERIF_DISK_KIND": "ssd"}
+        env = {"FCSHIM_FAKE_NOFILE": str(case["nofile"]), "FCSHIM_READ_DELAY_US": "20000", "FCLONES_VERIF_DISK_KIND": case.get("disk", "ssd")}
         res = S.run_with_shim(sc, args, [sc.tree], "r", env_extra=env, timeout=300)
         feat = {"mode": "call_sites", "engine": "e2e", "transform": bool(case["extra"])}
         ctx = "`fclones %s` with RLIMIT_NOFILE reported as %d, %d files of %d bytes, reads delayed" % (
@@ -137,7 +142,7 @@ def evaluate_e2e(case):
                     ctx, len(got), len(exp), res["err"][-200:])))
     contended = maxopen >= min(case["nofile"] - 5, 64) - 1
     return {"violations": viol, "states": 1, "transitions": max(opens, 1), "evaluations": 1,
-            "nontrivial": [["e2e", case["tree"], " ".join(case["threads"] + case["extra"]), case["nofile"]]] if contended else None,
+            "nontrivial": [["e2e", case["tree"], " ".join(case["threads"] + case["extra"]), case["nofile"], case.get("disk", "ssd")]] if contended else None,
             "outcome": "e2e_budget_reached" if contended else "e2e_budget_not_reached",
             "counters": {"e2e_max_open": maxopen, "e2e_runs": 1},
             "sample": {"case": case, "max_open": maxopen, "opens": opens}}
